@@ -25,6 +25,7 @@ def C04():
 def C06():
     from contracts.placement import ShouldShow, ShouldShowElement, PageBreak, PageSettings
     from contracts import replayers as R
+    from contracts.replay_docs import replayer as D
     return Property(
         "C06",
         units=[ContractUnit(ShouldShow()), ContractUnit(ShouldShowElement()), ContractUnit(PageBreak()), ContractUnit(PageSettings())] + _strategy_units(),
@@ -36,41 +37,61 @@ def C06():
         replayers={"services/document_service.py::RTFDocumentService.generate_page_break": R.replay_page_geometry,
                    "rtf/syntax.py::RTFSyntaxGenerator.generate_page_settings": R.replay_page_geometry,
                    "encoding/renderer.py::PageRenderer._should_show": R.replay_should_show,
-                   "pagination/processor.py::PageFeatureProcessor._should_show_element": R.replay_should_show},
+                   "pagination/processor.py::PageFeatureProcessor._should_show_element": R.replay_should_show,
+                   "pagination/strategies/*": D("header_repeat")},
         design_ref="4/C06, A15-A16",
     )
 
 
 def C08():
     from contracts.row import ColWidths, InchToTwip, LEMMAS
+    from contracts.attributes import EncodeRows
+    from contracts.emitters import CellAsRtf, RowAsRtf
+    from contracts.renderer import RenderBody
+    from contracts.spanning import EncodeSpanningRow
+    from contracts.headers import EncodeColumnHeader, RenderColumnHeaders
     from contracts import replayers as R
+    from contracts.replay_docs import replayer as D
     return Property(
         "C08",
-        units=[ContractUnit(ColWidths()), ContractUnit(InchToTwip())] + LEMMAS,
+        units=[ContractUnit(ColWidths()), ContractUnit(InchToTwip()), ContractUnit(EncodeRows()), ContractUnit(CellAsRtf()), ContractUnit(RowAsRtf()),
+               ContractUnit(EncodeSpanningRow()), ContractUnit(RenderBody(), variants=["levels1", "levels2", "no_boundaries"]),
+               ContractUnit(EncodeColumnHeader()), ContractUnit(RenderColumnHeaders())] + LEMMAS,
         level="proof",
-        technique="comprehension invariant cum*total == col_width*P[i] (nonlinear real arithmetic) on the real Utils._col_widths; inductive lemma for prefix sums",
+        technique="comprehension invariant cum*total == col_width*P[i] (nonlinear real arithmetic) on the real Utils._col_widths; inductive lemma for prefix "
+                  "sums; every data cell's width is col_widths[j] (constructor obligation in the real _encode), every cell ends with \\cellx round(1440*width), "
+                  "a row emits its cells in order, a group heading row is one cell of width page_width and _render_body passes the table width for it "
+                  "and the page's col_widths for the data rows; every column header is laid out on the table width with exactly one relative width per "
+                  "header cell (inherited full-table widths are replaced by the displayed columns' widths)",
         trusted_base=[SOLVERS, ENGINE, "floats treated as reals (L3): 'within one twip' is exact in the model"],
-        assumptions=["width vectors reaching _col_widths (RTFDocument.__init__, prepare_dataframe_for_body_encoding, "
-                     "encode_column_header) are separate carriers not yet under contract in this check"],
-        replayers={"row.py::Utils._col_widths": R.replay_col_widths, "row.py::Utils._inch_to_twip": R.replay_inch_to_twip},
+        assumptions=["width vectors reaching the page (RTFDocument.__init__ defaults/broadcast/inheritance, prepare_dataframe_for_body_encoding slicing, "
+                     "_encode_body_section) and footnote/source rendered as table are separate carriers not yet under contract in this check; "
+                     "RenderColumnHeaders assumes their results: the page carries one relative width per displayed column and every header has widths",
+                     "header labels are one per displayed column or one per own relative width (other shapes are configuration errors outside the property)",
+                     "nested (multi-section) header lists are not covered by RenderColumnHeaders"],
+        replayers={"row.py::Utils._col_widths": R.replay_col_widths, "row.py::Utils._inch_to_twip": R.replay_inch_to_twip,
+                   "*spanning*": D("spanning_edges"), "*_render_column_headers*": D("edges"), "*encode_column_header*": D("edges"),
+                   "*_render_body*": D("spanning_edges")},
         design_ref="4/C08, A4",
     )
 
 
 def C10():
     from contracts.row import ConvertSpecialChars
+    from contracts.headers import SublineHeader
+    from contracts.emitters import TextAsRtf
     from contracts import replayers as R
     return Property(
         "C10",
-        units=[ContractUnit(ConvertSpecialChars())],
+        units=[ContractUnit(ConvertSpecialChars()), ContractUnit(SublineHeader()), ContractUnit(TextAsRtf())],
         level="proof",
         technique="per-character obligations over a symbolic code point (all scalar values at once) inside the loop invariant of the real "
                   "TextContent._convert_special_chars: ASCII output, signed 16-bit \\u range, decode(piece) == character incl. surrogate pairs",
         trusted_base=[SOLVERS, ENGINE, "homomorphism laws of decode/ascii over string concatenation (DESIGN 1.5)",
                       "RTF 1.9 \\u / \\uc decode rule (L4)", "str.replace / LaTeX pass as uninterpreted functions (their output is the loop's input)"],
         assumptions=["domain: Unicode scalar values except C0/C1 controls and the raw RTF metacharacters \\ { } (C01's hypothesis on text)",
-                     "call sites that must route text through the escaping (paragraph_format re-wrap, subline_by heading, spanning rows) "
-                     "are not yet under contract in this check"],
+                     "the cell / paragraph / plain templates of TextContent._as_rtf and the subline_by heading use the escaped text exactly once (units "
+                     "TextAsRtf, SublineHeader); the *_format re-wrap call sites (encode_footnote/source/_encode_text) are not yet under contract in this check"],
         replayers={"row.py::TextContent._convert_special_chars": R.replay_convert_special_chars},
         design_ref="4/C10, A13",
     )
@@ -211,10 +232,14 @@ def C01():
     from contracts.placement import PageBreak, PageSettings
     from contracts.figures import EncodeSingleFigure
     from contracts.colors import GenerateColorTable
+    from contracts.headers import EncodeColumnHeader, RenderColumnHeaders, SublineHeader
+    from contracts.spanning import EncodeSpanningRow
     from contracts import replayers as R
+    from contracts.replay_docs import replayer as D
     units = [ContractUnit(u) for u in EM] + [ContractUnit(EncodeRows()), ContractUnit(EncodeCtx()), ContractUnit(ColWidths()),
              ContractUnit(ConvertSpecialChars()), ContractUnit(PageBreak()), ContractUnit(PageSettings()), ContractUnit(EncodeSingleFigure()),
-             ContractUnit(GenerateColorTable())] + LEMMAS
+             ContractUnit(GenerateColorTable()), ContractUnit(EncodeColumnHeader()), ContractUnit(RenderColumnHeaders()),
+             ContractUnit(SublineHeader()), ContractUnit(EncodeSpanningRow())] + LEMMAS
     return Property(
         "C01", units=units, level="proof",
         technique="measure contracts (brace balance / minimal prefix balance / ASCII / integral parameters) on the real emitters' f-strings, row-shape "
@@ -222,12 +247,13 @@ def C01():
         trusted_base=[SOLVERS, ENGINE, "homomorphism laws of bal/low/ascii over concatenation (DESIGN 1.5)", "RTF reader reads the literal chunk shapes as the RTF specification says (L4)",
                       "pydantic model construction = record construction after declared-type coercion"],
         assumptions=["user text is balanced w.r.t. unescaped braces (the property's own hypothesis)",
-                     "multi-section / figure skeletons, _render_column_headers (as_colheader=False), encode_column_header, encode_spanning_row, "
-                     "encode_footnote/source and _encode_text are not yet under contract in this check; totality of the pydantic/polars glue is assumed (L2)"],
+                     "multi-section / figure skeletons, PageRenderer.render, encode_footnote/source and _encode_text are not yet under contract in "
+                     "this check; totality of the pydantic/polars glue is assumed (L2)"],
         replayers={"row.py::TextContent._convert_special_chars": R.replay_convert_special_chars, "row.py::Utils._col_widths": R.replay_col_widths,
                    "services/document_service.py::": R.replay_page_geometry, "rtf/syntax.py::": R.replay_page_geometry,
                    "services/figure_service.py::": R.replay_figures, "services/color_service.py::": R.replay_color_index,
-                   "encoding/unified_encoder.py::": R.replay_purity},
+                   "encoding/unified_encoder.py::": R.replay_purity, "encoding/renderer.py::": D("wellformed"),
+                   "services/encoding_service.py::": D("wellformed")},
         design_ref="4/C01, A14")
 
 
@@ -247,6 +273,7 @@ def C02():
     from contracts.emitters import RowAsRtf, TextAsRtf
     from contracts.pagination_core import AssignPages
     from contracts.replay_pagination import replay_assign_pages
+    from contracts.replay_docs import replayer as D
     return Property(
         "C02", units=[ContractUnit(EncodeRows()), ContractUnit(RenderBody()), ContractUnit(RowAsRtf()), ContractUnit(TextAsRtf()), ContractUnit(AssignPages())]
         + _strategy_units(),
@@ -256,21 +283,24 @@ def C02():
         trusted_base=[SOLVERS, ENGINE, POLARS, "polars slice / df[a:b] row-interval semantics (assumed)"],
         assumptions=["_apply_data_post_processing (re-cut on the column-reduced frame) and prepare_dataframe_for_body_encoding (column removal keeps "
                      "order) are not yet under contract in this check; multi-section order likewise; calculate_row_metadata is used through AssignPages' ensures"],
-        replayers={"pagination/core.py::PageBreakCalculator._assign_pages": replay_assign_pages},
+        replayers={"pagination/core.py::PageBreakCalculator._assign_pages": replay_assign_pages,
+                   "encoding/renderer.py::PageRenderer._render_body": D("cells"), "attributes.py::TableAttributes._encode": D("cells")},
         design_ref="4/C02")
 
 
 def C05():
     from contracts.renderer import RenderBody
+    from contracts.headers import SublineHeader
+    from contracts.spanning import EncodeSpanningRow
+    from contracts.replay_docs import replayer as D
     return Property(
-        "C05", units=[ContractUnit(RenderBody())] + _strategy_units(), level="proof",
+        "C05", units=[ContractUnit(RenderBody()), ContractUnit(SublineHeader()), ContractUnit(EncodeSpanningRow())] + _strategy_units(), level="proof",
         technique="ghost heading state (displayed value and position per page_by level) in the loop invariant of the real PageRenderer._render_body, "
                   "inner level loop unrolled for the property's 1-3 levels; obligations at every row emission",
         trusted_base=[SOLVERS, ENGINE, POLARS],
         assumptions=["str() injective on non-null keys; a non-null key's text is not the literal 'None'",
-                     "render step 7 (page-top headings from pageby_header_info), the subline_by heading paragraph emitter and the heading budget in "
-                     "calculate_row_metadata are not yet under contract in this check"],
-        replayers={}, design_ref="4/C05, A7")
+                     "render step 7 (page-top headings from pageby_header_info) is not yet under contract in this check"],
+        replayers={"encoding/renderer.py::PageRenderer._render_body": D("headings")}, design_ref="4/C05, A7")
 
 
 def C07():
@@ -296,6 +326,7 @@ def C09():
     from contracts.processor import PaginationBorders
     from contracts.emitters import CellAsRtf, BorderAsRtf, TextFormatting, ParagraphFormatting
     from contracts import replayers as R
+    from contracts.replay_docs import replayer as D
     return Property(
         "C09", units=[ContractUnit(Iloc()), ContractUnit(ToList()), ContractUnit(UpdateCell()), ContractUnit(EncodeRows()), ContractUnit(RenderBody()),
                       ContractUnit(PaginationBorders()), ContractUnit(CellAsRtf()), ContractUnit(BorderAsRtf()), ContractUnit(TextFormatting()),
@@ -306,7 +337,8 @@ def C09():
         trusted_base=[SOLVERS, ENGINE, POLARS],
         assumptions=["the attribute column slicing in prepare_dataframe_for_body_encoding after page_by/subline_by removal is not yet under contract in this check",
                      "PaginationBorders uses a representative-field abstraction of type(page_attrs).model_fields (two border matrices + one generic matrix attribute)"],
-        replayers={"attributes.py::BroadcastValue": R.replay_broadcast}, design_ref="4/C09, A5-A6")
+        replayers={"attributes.py::BroadcastValue": R.replay_broadcast, "encoding/renderer.py::PageRenderer._render_body": D("row_offset"),
+                   "attributes.py::TableAttributes._encode": D("row_offset")}, design_ref="4/C09, A5-A6")
 
 
 def C13():
